@@ -33,6 +33,8 @@ pub fn dispatch(id: &str, tier: Tier, replay: Option<&str>) -> i32 {
         let v: serde_json::Value = serde_json::from_str(&txt).unwrap_or_else(|e| machinery_error(&format!("replay file {path} does not parse: {e}")));
         println!("replaying {path}: key={} what={}", v["key"], v["what"]);
         match id {
+            "C01" => return hist::replay("C01", &v, &c01::lists(), c01::ContractMonitor::new),
+            "C03" => return hist::replay("C03", &v, &c03::lists(), c03::LifeMonitor::new),
             "C05" => return c05::replay(&v),
             "C06" => return c06::replay(&v),
             "C10" => return c10::replay(&v),
